@@ -35,15 +35,22 @@ def obligations(c, facts, b, prefix):
         for case in ("ok", "err"):
             pr = P.Probe(facts, None, pubf.module)
             arg = P.Opq("argument")
-            R, E = P.Opq("inner result"), P.Opq("inner error")
+            # the inner result as the record it is (a pair, or a struct of the crate): one unknown per component
+            rec = an.result_record(innerk)
+            RO, RT = P.Opq("inner result: options"), P.Opq("inner result: tree")
+            if rec["kind"] == "tuple":
+                R = [RO if a_ == rec["opts"] else RT for a_, _ in rec["fields"]]
+            else:
+                R = dict({"__ty": rec["name"]}, **{a_: (RO if a_ == rec["opts"] else RT) for a_, _ in rec["fields"]})
+            E = P.Opq("inner error")
             seen = {}
             pr.intercept[innerk] = lambda a, case=case, seen=seen: (seen.__setitem__("inner", list(a)), ("ok", R) if case == "ok" else ("err", E))[1]
             if dispk:
                 pr.intercept[dispk] = lambda a, seen=seen: (seen.__setitem__("dispatch", list(a)), P.Opq("dispatched", ("call", dispk, list(a))))[1]
             out = pr.invoke(pubf, None, [arg] + [P.Opq("extra") for _ in pubf.params[1:]])
-            outcomes[case] = (out, seen, arg, R, E)
+            outcomes[case] = (out, seen, arg, (RO, RT), E)
         out, seen, arg, R, E = outcomes["ok"]
-        ok1 = isinstance(out, tuple) and out[0] == "ok" and out[1] is R and seen.get("inner") == [arg] and seen["inner"][0] is arg
+        ok1 = isinstance(out, tuple) and out[0] == "ok" and isinstance(out[1], list) and len(out[1]) == 2 and out[1][0] is R[0] and out[1][1] is R[1] and seen.get("inner") == [arg] and seen["inner"][0] is arg
         out, seen, arg, R, E = outcomes["err"]
 
         def rooted(v, root):
